@@ -270,6 +270,19 @@ def mc_job(args):
     return kind, params, T, stats, viol
 
 
+def mcmod_job(args):
+    """Layer (b2): the prange loops of a Cython module, explored in a fresh interpreter (vlib/sched/mcmod_run.py)."""
+    mod, repo, ov, bound, seed = args
+    import json
+    script = os.path.join(os.path.dirname(os.path.dirname(os.path.abspath(__file__))), "vlib", "sched", "mcmod_run.py")
+    env = dict(os.environ, OMP_NUM_THREADS="1", PYTHONHASHSEED="0")
+    p = subprocess.run([sys.executable, script, mod, repo, ov, str(bound), str(seed)], env=env, stdout=subprocess.PIPE,
+                       stderr=subprocess.PIPE, text=True, timeout=3000)
+    if p.returncode != 0:
+        return mod, None, p.stderr[-600:]
+    return mod, json.loads(p.stdout.strip().splitlines()[-1])["results"], ""
+
+
 # ------------------------------------------------------------------------------------------------ layer (c)
 
 _FREE_SCRIPT = r'''
@@ -322,6 +335,12 @@ def run(ctx):
                  ("sasa", (4, 2, 2), T, bound, ctx.seed, ctx.repo),
                  ("center", (3, 5), T, bound, ctx.seed, ctx.repo), ("center", (5, 4), T, bound, ctx.seed, ctx.repo),
                  ("nlist", (5, None), T, bound, ctx.seed, ctx.repo), ("nlist", (6, [2.0, 2.0, 2.0] + [0.0] * 6), T, bound, ctx.seed, ctx.repo)]
+    b2jobs = [(m, ctx.repo, ctx.overlay, 1 if ctx.quick else 2, ctx.seed) for m in ("mdtraj._rmsd", "mdtraj.geometry.drid")]
+    for m in ("mdtraj._rmsd", "mdtraj.geometry.drid"):
+        build.build_mc_module(m, ctx.repo)              # built once here; the subprocesses find it in the cache
+    import concurrent.futures as cf
+    b2pool = cf.ThreadPoolExecutor(2)
+    b2futs = [b2pool.submit(mcmod_job, j) for j in b2jobs]        # run while the other layers proceed
     mouts = ctx.pmap(mc_job, jobs)
     b_exec = b_points = 0
     b_table = []
@@ -342,6 +361,25 @@ def run(ctx):
     if not selftest_caught:
         ctx.violation("mc|selftest|not-caught", "the explorer did not find the seeded lost update in the harness self-test: "
                       "schedule exploration is not working", {"layer": "b", "kind": "selftest"})
+    # ---------------- (b2) results
+    b2_table = []
+    for fut in b2futs:
+        mod, results, err = fut.result()
+        if results is None:
+            ctx.violation("mcmod|%s|run-failed" % mod, "instrumented-module exploration failed: %s" % err, {"layer": "b2", "module": mod})
+            continue
+        for r in results:
+            if r.get("error"):
+                ctx.violation("mcmod|%s|harness" % mod, "%s: %s" % (r["call"], r["error"]), {"layer": "b2", "module": mod, "call": r["call"]})
+                continue
+            b_exec += r["executions"]
+            b_points += r["scheduling_points"]
+            b2_table.append({k: r[k] for k in ("call", "T", "bound", "executions", "scheduling_points", "free_choices",
+                                               "conflicting_granules", "distinct_outputs", "parallel_regions")})
+            for f in r["fails"]:
+                ctx.violation("mcmod|%s|%s|output" % (mod, r["call"].split(" ")[0]),
+                              "%s T=%d schedule %s: %s (replay deterministic: %s)" % (r["call"], r["T"], f["schedule"], f["msg"], f["replay_deterministic"]),
+                              {"layer": "b2", "module": mod, "call": r["call"], "T": r["T"], "schedule": f["schedule"]})
     # ---------------- (c)
     reps = 2 if ctx.quick else 5
     threads = [1, 2, 3, 5, 8, 16, 40]
@@ -371,7 +409,7 @@ def run(ctx):
         "exhaustive": True,
         "layer_a_functions": len(names), "layer_a_executions": a_exec, "layer_a_nontrivial_sequences": a_nontriv,
         "layer_a_functions_with_identical_frames(vacuous)": flat_fns,
-        "layer_b": b_table, "layer_b_preemption_bound": bound, "selftest_lost_update_caught": selftest_caught,
+        "layer_b": b_table, "layer_b_preemption_bound": bound, "layer_b2_cython_prange": b2_table, "selftest_lost_update_caught": selftest_caught,
         "layer_c_configurations": len(fouts), "layer_c_identical": c_ok,
         "rule": "states = schedules executed in (b); transitions = scheduling points of the default schedules; (a) every "
                 "ordered selection with repetition of 1..3 of 4 frames per function; (c) every listed OMP configuration",
@@ -405,6 +443,11 @@ def replay(ctx, rep):
         assert a == b, "replay not deterministic"
         print("replay: output %s the 1-thread result" % ("equals" if a == ref else "differs from"))
         return a == ref
+    if rep["layer"] == "b2":
+        mod, results, err = mcmod_job((rep["module"], ctx.repo, ctx.overlay, 1 if ctx.quick else 2, ctx.seed))
+        bad = [r for r in (results or []) if r.get("fails")]
+        print("replay:", [(r["call"], r["fails"][0]["msg"]) for r in bad][:3] or err)
+        return not bad and results is not None
     r = free_job(tuple(rep["cfg"][:4]) + (ctx.repo, ctx.overlay))
     r0 = free_job(tuple(rep["ref"][:4]) + (ctx.repo, ctx.overlay))
     return r[1] == r0[1]
